@@ -136,7 +136,10 @@ def check(run):
         core.session_read_until(impl, lambda l: l.startswith("held"))
         impl.cmd("f2 close")
         dist["failed_open"] = o[-1]
-        if o[-1] == "f2 open err" and (got != exp_locked or wr != "locked"):
+        kf = next((k for k in known if k["id"] == "same-process-failed-open"), None)
+        if o[-1] == "f2 open err" and (got != exp_locked or wr != "locked") and kf:
+            run.known_hits.append(kf["what_fails"])
+        elif o[-1] == "f2 open err" and (got != exp_locked or wr != "locked"):
             run.violation("a failed Open of the same file in the same process (hot journal) while a read is inside its callback: another process sees [%s], a writer's COMMIT is '%s'" % (got, wr),
                           {"kind": "lock-not-held", "db": path, "scenario": "hold select; journal appears; Open fails; probe", "probe": got, "writer": wr})
     # a nested call on the same handle from inside the callback must not take the lock away from the outer call
